@@ -64,6 +64,47 @@ def apply_calls(prog, r, b, field):
     return out
 
 
+def vacuous_hook_blocks(prog, r, b, field):
+    """blocks at which the hooks of Hooks.<field> have been applied vacuously: the arm of a test `list.is_empty()` (on that very
+    list) on which the list is empty - applying an empty list calls nothing and succeeds"""
+    an = prog.an(b)
+    out = []
+    for blk in b.blocks:
+        t = blk.term
+        if t.kind != 'switch' or blk.cleanup or t.j.get('dty') != 'bool' or t.discr.kind == 'const' or t.discr.place.proj:
+            continue
+        neg = False
+        l = t.discr.place.local
+        hit = False
+        for _ in range(8):
+            d = an.single_def(l)
+            if d is None:
+                break
+            if d[0] == 'stmt':
+                rv = d[3].rv
+                if rv.kind == 'use' and rv.ops[0].kind != 'const' and not rv.ops[0].place.proj:
+                    l = rv.ops[0].place.local; continue
+                if rv.kind == 'un' and rv.binop == 'Not' and rv.ops[0].kind != 'const' and not rv.ops[0].place.proj:
+                    neg = not neg; l = rv.ops[0].place.local; continue
+                break
+            tt = d[3]
+            if tt.args and any(n.split('::')[-1] == 'is_empty' and (n.startswith('std::vec::Vec') or n.startswith('core::slice') or n.startswith('std::slice') or strip_generics(n) == HOOKVEC + '::is_empty') for n in tt.callee_names()):
+                if ('field', '%s.%s' % (r.HOOKS, field)) in sources(an, tt.args[0]):
+                    hit = True
+            break
+        if hit:
+            arms = dict(t.switch_arms())
+            tgt = arms.get('false' if neg else 'true')
+            if tgt is not None:
+                out.append(b.blocks[tgt])
+    return out
+
+
+def hook_steps(prog, r, b, field):
+    """(apply call blocks, vacuous blocks) of the hook list `field` in body b"""
+    return apply_calls(prog, r, b, field), vacuous_hook_blocks(prog, r, b, field)
+
+
 def completion_block(an, b, ctor_blk):
     """the block where the awaited future created at ctor_blk has completed (Ready arm of its poll)"""
     # find poll switch blocks (adt Poll) reachable from ctor before any other constructor; take the first one dominated by ctor
@@ -94,15 +135,22 @@ def run(ctx):
 
     # ---- R04.1 step order -------------------------------------------------------
     def steps_of(b, spec):
+        """[(name, occurrences, vacuous occurrences)]: a step may occur at several places as long as no path runs through two
+        of them (an early return for a case in which the remaining steps are no-ops)"""
         an = prog.an(b)
         out = []
         for name, finder in spec:
             blks = finder(b, an)
-            if len(blks) != 1:
+            vac = []
+            if isinstance(blks, tuple):
+                blks, vac = blks
+            allb = list(blks) + list(vac)
+            twice = [(x.idx, y.idx) for x in allb for y in allb if x.idx != y.idx and y.idx in an.reach_after(x.idx, ('normal',))]
+            if not blks or twice:
                 ctx.ob('R04.1', 'step `%s` occurs exactly once in %s' % (name, b.name.split('::')[-2]), False, ctx.where(b),
-                       '%d occurrences' % len(blks), construct='step-count:%s:%s' % (b.name, name))
+                       '%d occurrences%s' % (len(blks), ', two of them on one path' if twice else ''), construct='step-count:%s:%s' % (b.name, name))
                 return None
-            out.append((name, blks[0]))
+            out.append((name, list(blks), list(vac)))
         return out
 
     def ready_calls(b, an):
@@ -124,15 +172,15 @@ def run(ctx):
         return bbs
 
     rec_spec = [
-        ('pre_recycle hooks', lambda b, an: apply_calls(prog, r, b, H['pre_recycle'])),
+        ('pre_recycle hooks', lambda b, an: hook_steps(prog, r, b, H['pre_recycle'])),
         ('Manager::recycle', lambda b, an: manager_calls(b, MANAGER_RECYCLE)),
-        ('post_recycle hooks', lambda b, an: apply_calls(prog, r, b, H['post_recycle'])),
+        ('post_recycle hooks', lambda b, an: hook_steps(prog, r, b, H['post_recycle'])),
         ('ready()', ready_calls),
     ]
     cre_spec = [
         ('Manager::create', lambda b, an: manager_calls(b, MANAGER_CREATE)),
         ('size += 1', size_inc),
-        ('post_create hooks', lambda b, an: apply_calls(prog, r, b, H['post_create'])),
+        ('post_create hooks', lambda b, an: hook_steps(prog, r, b, H['post_create'])),
         ('ready()', ready_calls),
     ]
     for b, spec in ((rec, rec_spec), (cre, cre_spec)):
@@ -141,19 +189,28 @@ def run(ctx):
         if not steps:
             continue
         ok_e, fail_e = success_edges(an)
-        for (n1, b1), (n2, b2) in zip(steps, steps[1:]):
-            dom = an.dominates(b1.idx, b2.idx) and b1.idx != b2.idx
-            ctx.ob('R04.1', '%s precedes %s' % (n1, n2), dom, ctx.where(b, b2.term.line),
-                   '`%s` is not dominated by `%s`' % (n2, n1) if not dom else '', construct='order:%s:%s<%s' % (b.name.split('::')[-2], n1, n2),
-                   sites=[ctx.where(b, b1.term.line), ctx.where(b, b2.term.line)])
-            if n1 == 'size += 1':
-                continue
-            # the later step is reachable from the earlier one only through a success edge
-            reach = reach_without_edges(an, b1.idx, ok_e, ('normal',))
-            viaok = b2.idx not in reach
-            ctx.ob('R04.1', '%s only after %s succeeded' % (n2, n1), viaok, ctx.where(b, b2.term.line),
-                   '`%s` is reachable from `%s` without passing the success branch of a Result test: a failure of %s is ignored' % (n2, n1, n1)
-                   if not viaok else '', construct='success-gate:%s:%s->%s' % (b.name.split('::')[-2], n1, n2))
+        for (n1, occ1, vac1), (n2, occ2, vac2) in zip(steps, steps[1:]):
+            # every occurrence of the later step lies behind some occurrence of the earlier one (must-pass; one occurrence each
+            # = dominance)
+            avoid1 = [x.idx for x in occ1 + vac1]
+            esc = an.reach([0], ('normal',), avoid=avoid1)
+            for b2 in occ2:
+                dom = b2.idx not in esc and b2.idx not in [x.idx for x in occ1]
+                ctx.ob('R04.1', '%s precedes %s' % (n1, n2), dom, ctx.where(b, b2.term.line),
+                       '`%s` is not dominated by `%s`' % (n2, n1) if not dom else '', construct='order:%s:%s<%s' % (b.name.split('::')[-2], n1, n2),
+                       sites=[ctx.where(b, x.term.line) for x in occ1] + [ctx.where(b, b2.term.line)])
+                if n1 == 'size += 1':
+                    continue
+                # the later step is reachable from the earlier one only through a success edge (a vacuous occurrence - an empty
+                # hook list - cannot fail)
+                viaok = True
+                for b1 in occ1:
+                    reach = reach_without_edges(an, b1.idx, ok_e, ('normal',))
+                    if b2.idx in reach:
+                        viaok = False
+                ctx.ob('R04.1', '%s only after %s succeeded' % (n2, n1), viaok, ctx.where(b, b2.term.line),
+                       '`%s` is reachable from `%s` without passing the success branch of a Result test: a failure of %s is ignored' % (n2, n1, n1)
+                       if not viaok else '', construct='success-gate:%s:%s->%s' % (b.name.split('::')[-2], n1, n2))
         # hooks receive the wrapped object (same object as recycle / ready)
     # the timeout wrappers: TimeoutType constant and per-call duration (shared with C10)
     for b, mcall, tt, fld in ((rec, MANAGER_RECYCLE, 'Recycle', 'recycle'), (cre, MANAGER_CREATE, 'Create', 'create')):
@@ -255,6 +312,22 @@ def run(ctx):
                 skipped = nx.idx in esc or bool(okret)
                 ctx.ob('R04.3', 'every registered hook is invoked (no element of the list is skipped)', not skipped, ctx.where(ap, sw_.term.line),
                        'a path from taking the next hook back to the loop head (or to Ok) does not invoke it: a verifying hook can be bypassed' if skipped else '', construct='hooks-skip')
+        # a hook invoked outside the walk over the list (a fast path returning its result directly) runs instead of the walk: that
+        # is the whole list only under a test that the list has exactly one element
+        for h in hcalls:
+            if in_cycle(aan, h.idx):
+                continue
+            one = False
+            for (op_, lhs_, rhs_, swb_) in governing_conditions(aan, h.idx):
+                if op_ != 'Eq':
+                    continue
+                for x_, y_ in ((lhs_, rhs_), (rhs_, lhs_)):
+                    if aan.resolve_operand(y_) == '1_usize' and x_.kind != 'const' and \
+                            any(s_[0] == 'field' and s_[1] == HOOKVEC + '.vec' for s_ in sources(aan, x_, deep=True)):
+                        one = True
+            ctx.ob('R04.3', 'a hook invoked outside the walk over the list is the only hook registered', one, ctx.where(ap, h.term.line),
+                   'this invocation is not part of the loop and not governed by `len == 1`: its result ends the run although further hooks may be registered' if not one else '',
+                   construct='hooks-skip')
         ok_e, fail_e = success_edges(aan)
         for h in hcalls:
             reach = reach_without_edges(aan, h.idx, ok_e, ('normal',))
@@ -276,7 +349,10 @@ def run(ctx):
                     continue
                 if ('field', HOOKVEC + '.vec') in sources(ban, t.args[0]) or any(s[0] == 'field' and s[1].startswith(HOOKVEC + '.') for s in sources(ban, t.args[0])):
                     meth = sorted(t.callee_names())[0].split('::')[-1]
-                    ok = meth in ('push', 'len', 'is_empty', 'iter', 'new', 'deref', 'fmt')
+                    a0 = t.args[0]
+                    shared = a0.kind != 'const' and not a0.place.proj and b.locals[a0.place.local]['ty'].startswith('&') and not b.locals[a0.place.local]['ty'].startswith('&mut ')
+                    # a method taking `&Vec` cannot change which hooks are registered; of the `&mut` ones only push may be used
+                    ok = meth in ('push', 'len', 'is_empty', 'iter', 'new', 'deref', 'fmt') or shared
                     ctx.ob('R04.3', 'hook vector only extended with push', ok, ctx.where(b, t.line), 'Vec::%s on the hook vector' % meth if not ok else '',
                            construct='hookvec-method:' + meth)
 
@@ -301,6 +377,13 @@ def run(ctx):
         for blk, m in queue_calls(r, b, ban):
             if m.startswith('push') or m in ('insert', 'extend', 'append'):
                 ok = b.path in {h.path for h in r.RETURN}
+                if not ok and len(blk.term.args) > 1:
+                    # putting back an element that this very function took out of the queue (a walk that pops and re-inserts)
+                    # lets nothing in: the object was idle before
+                    pops_ = {x.idx for x, m2 in queue_calls(r, b, ban) if m2.startswith('pop') or m2 in ('remove', 'drain')}
+                    src_ = sources(ban, blk.term.args[1], deep=True)
+                    if pops_ and any(x_[0] == 'call' and x_[2] in pops_ for x_ in src_) and not any(x_[0] in ('arg', 'upvar') for x_ in sources(ban, blk.term.args[1])):
+                        ok = True
                 ctx.ob('R04.4', 'objects enter the idle queue only through the return path', ok, ctx.where(b, blk.term.line),
                        '%s pushes to the idle queue' % b.name if not ok else '', construct='queue-push:' + b.name, sites=[ctx.where(b, blk.term.line)])
 
